@@ -7,6 +7,8 @@ package props
 import (
 	"encoding/json"
 	"fmt"
+	"os"
+	"path/filepath"
 	"sort"
 	"sync"
 	"testing"
@@ -34,7 +36,9 @@ func genC15Sys(t *rapid.T) c15sCase {
 		l := fmt.Sprintf("op%d", i)
 		loc := rapid.SampledFrom([]string{"A", "B"}).Draw(t, l+".loc")
 		id := rapid.SampledFrom([]string{"s1", "s2"}).Draw(t, l+".id")
-		switch rapid.SampledFrom([]string{"sched", "sched", "sched", "rem", "rule", "clear", "sleep", "sleep", "sleep"}).Draw(t, l+".kind") {
+		switch rapid.SampledFrom([]string{"sched", "sched", "sched", "rem", "rule", "clear", "sleep", "sleep", "sleep", "restart"}).Draw(t, l+".kind") {
+		case "restart":
+			c.Ops = append(c.Ops, op{K: "restart"})
 		case "sched":
 			c.Ops = append(c.Ops, op{K: "sched", Loc: loc, Id: id, N: rapid.SampledFrom([]int64{1e9, 2e9, 3500e6}).Draw(t, l+".d"), B: rapid.IntRange(0, 3).Draw(t, l+".recurring") == 0})
 		case "rem":
@@ -54,6 +58,9 @@ func genC15Sys(t *rapid.T) c15sCase {
 
 type c15sGen struct {
 	loc, id, tag string
+	d            time.Duration
+	firstDue     time.Time
+	restarted    bool
 	recurring    bool
 	due          time.Time
 	removedAt    time.Time
@@ -68,42 +75,64 @@ func runC15Sys(c c15sCase) *vlib.Outcome {
 	n0 := time.Now()
 	time.Sleep(n0.Truncate(10*time.Second).Add(10*time.Second).Sub(n0) + 100*time.Millisecond)
 
-	ctx := newCtx()
-	cr, _ := cron.NewCron(cron.NewCronBroadcaster(), time.Second, "intcron", 100000)
-	cr.Start(ctx)
-	time.Sleep(time.Millisecond)
-	cr.Resume(ctx)
-	defer func() {
-		cr.Kill(newCtx())
-		time.Sleep(time.Millisecond)
-	}()
-	conf := sys.ExampleConfig()
-	conf.UnindexedState = c.Linear
-	cont := sys.ExampleSystemControl()
-	cont.Timing = false
-	cont.LocationTTL = sys.Forever
-	cont.DefaultLocControl = quietControl()
+	base := "/dev/shm"
+	if _, err := os.Stat(base); err != nil {
+		base = os.TempDir()
+	}
+	dir, err := os.MkdirTemp(base, "vc15-")
+	if err != nil {
+		o.Fail("TMP", "%v", err)
+		return o
+	}
+	defer os.RemoveAll(dir)
 	// firings are recorded outside the locations (a Clear would wipe them)
 	fired := map[string]map[string]int{"A": {}, "B": {}} // loc -> tag -> count
 	var fmu sync.Mutex
-	cont.DefaultLocControl.CodeProps = map[string]interface{}{
-		"record": func(call otto.FunctionCall) otto.Value {
-			tag, _ := call.Argument(0).ToString()
-			loc, _ := call.Argument(1).ToString()
-			fmu.Lock()
-			if fired[loc] == nil {
-				fired[loc] = map[string]int{}
-			}
-			fired[loc][tag]++
-			fmu.Unlock()
-			return otto.TrueValue()
-		},
+	var cr *cron.Cron
+	var s *sys.System
+	boot := func() error {
+		ctx := newCtx()
+		cr, _ = cron.NewCron(cron.NewCronBroadcaster(), time.Second, "intcron", 100000)
+		cr.Start(ctx)
+		time.Sleep(time.Millisecond)
+		cr.Resume(ctx)
+		conf := sys.ExampleConfig()
+		conf.Storage = "bolt"
+		conf.StorageConfig = filepath.Join(dir, "state.db")
+		conf.UnindexedState = c.Linear
+		cont := sys.ExampleSystemControl()
+		cont.Timing = false
+		cont.LocationTTL = sys.Forever
+		cont.DefaultLocControl = quietControl()
+		cont.DefaultLocControl.CodeProps = map[string]interface{}{
+			"record": func(call otto.FunctionCall) otto.Value {
+				tag, _ := call.Argument(0).ToString()
+				loc, _ := call.Argument(1).ToString()
+				fmu.Lock()
+				if fired[loc] == nil {
+					fired[loc] = map[string]int{}
+				}
+				fired[loc][tag]++
+				fmu.Unlock()
+				return otto.TrueValue()
+			},
+		}
+		var err error
+		s, err = sys.NewSystem(ctx, *conf, *cont, &cron.InternalCron{Cron: cr})
+		return err
 	}
-	s, err := sys.NewSystem(ctx, *conf, *cont, &cron.InternalCron{Cron: cr})
-	if err != nil {
+	shutdown := func() {
+		cr.Kill(newCtx())
+		time.Sleep(time.Millisecond)
+		if s != nil {
+			s.Close(newCtx())
+		}
+	}
+	if err := boot(); err != nil {
 		o.Fail("NEWSYSTEM", "%v", err)
 		return o
 	}
+	defer func() { shutdown() }()
 	t0 := time.Now()
 	rel := func(t time.Time) string { return "+" + t.Sub(t0).String() }
 	var gens []*c15sGen
@@ -123,7 +152,7 @@ func runC15Sys(c c15sCase) *vlib.Outcome {
 		case "sched":
 			tag := fmt.Sprintf("g%d", i)
 			sched := "+" + time.Duration(x.N).String()
-			g := &c15sGen{loc: x.Loc, id: x.Id, tag: tag, due: now.Add(time.Duration(x.N))}
+			g := &c15sGen{loc: x.Loc, id: x.Id, tag: tag, d: time.Duration(x.N), due: now.Add(time.Duration(x.N))}
 			if x.B {
 				sched = "*/2 * * * * * *"
 				g.recurring = true
@@ -135,6 +164,7 @@ func runC15Sys(c c15sCase) *vlib.Outcome {
 				o.Fail("ADDRULE_ERROR", "%s: %v", when, err)
 				return o
 			}
+			g.firstDue = g.due
 			retire(key)
 			current[key] = g
 			gens = append(gens, g)
@@ -167,6 +197,33 @@ func runC15Sys(c c15sCase) *vlib.Outcome {
 			}
 		case "sleep":
 			time.Sleep(time.Duration(x.N))
+		case "restart":
+			// the process restarts: the ephemeral cron loses its jobs;
+			// loading the locations again must register the scheduled
+			// rules again
+			shutdown()
+			if err := boot(); err != nil {
+				o.Fail("NEWSYSTEM", "%s: restart failed: %v", when, err)
+				return o
+			}
+			for _, ln := range []string{"A", "B"} {
+				if _, err := s.GetSize(newCtx(), ln); err != nil {
+					o.Fail("RELOAD", "%s: loading %s after the restart failed: %v", when, ln, err)
+					return o
+				}
+			}
+			at := time.Now()
+			for _, g := range current {
+				if g.recurring {
+					g.due = at.Truncate(2 * time.Second).Add(2 * time.Second)
+				} else {
+					// a relative schedule starts over when it is
+					// registered again
+					g.due = at.Add(g.d)
+				}
+				g.restarted = true
+			}
+			o.Label("restart")
 		}
 	}
 	time.Sleep(5 * time.Second)
@@ -194,7 +251,7 @@ func runC15Sys(c c15sCase) *vlib.Outcome {
 		if fired[other][g.tag] > 0 {
 			o.Fail("SCHEDULED_RULE_RAN_IN_WRONG_LOCATION", "rule %s of location %s ran in location %s; %s", g.tag, g.loc, other, hist())
 		}
-		removedBeforeDue := !g.removedAt.IsZero() && g.removedAt.Before(g.due)
+		removedBeforeDue := !g.removedAt.IsZero() && g.removedAt.Before(g.firstDue)
 		if removedBeforeDue && n > 0 {
 			o.Fail("SCHEDULED_RULE_RAN_AFTER_REMOVAL", "rule %s was removed/replaced/cleared before it was due but ran %d times; %s", g.tag, n, hist())
 		}
